@@ -1090,6 +1090,26 @@ func genLarge(t *rapid.T) LargeCase {
 	return c
 }
 
+// sweepCases: .splat and splat-PLY for every count up to N, SPZ (gzip: dearer) up to N/4; the codec
+// options cycle with the count.
+func sweepCases() []LargeCase {
+	n := 1200
+	if vh.Tier == "thorough" {
+		n = 12000
+	}
+	var out []LargeCase
+	for k := 1; k <= n; k++ {
+		seed := uint64(k)*0x9E3779B97F4A7C15 + 1
+		out = append(out, LargeCase{Kind: "splat", N: k, Seed: seed})
+		out = append(out, LargeCase{Kind: "ply", N: k, Seed: seed, Normals: k%2 == 0, Rest: k % 2})
+		if k <= n/4 {
+			out = append(out, LargeCase{Kind: "spz", N: k, Seed: seed, Version: 1 + k%2, Deg: k % 4, FB: 4 + k%20,
+				Level: []int{gzip.DefaultCompression, gzip.NoCompression, gzip.BestSpeed, gzip.HuffmanOnly}[k%4]})
+		}
+	}
+	return out
+}
+
 func runLarge(c LargeCase, o *vh.Obs) *vh.Failure {
 	if c.N < 1 || c.N > 100000 {
 		o.Class("out-of-domain")
@@ -1189,6 +1209,11 @@ func TestC15(t *testing.T) {
 	vh.Drive(t, vh.Spec[SpzCase]{Name: "spz-decode", Quick: 80000, Thorough: 2400000, Gen: genSpz, Run: runSpz})
 	vh.Drive(t, vh.Spec[PlyCase]{Name: "splat-ply", Quick: 100000, Thorough: 3000000, Gen: genPlyCase, Run: runPly})
 	vh.Drive(t, vh.Spec[LargeCase]{Name: "large", Quick: 200, Thorough: 6000, Gen: genLarge, Run: runLarge})
+	// count sweep: every splat count 1..N once per codec (a defect that needs an exact multiple of an
+	// internal block size cannot be found by sampling counts)
+	vh.Enumerate(t, vh.Spec[LargeCase]{Name: "count-sweep", Run: runLarge,
+		Key:    func(c LargeCase) string { return fmt.Sprintf("sweep-%s-%d", c.Kind, c.N) },
+		Sample: func(c LargeCase) any { return fmt.Sprintf("%s with %d splats", c.Kind, c.N) }}, sweepCases())
 	vh.Drive(t, vh.Spec[vh.Conc[SplatCase]]{Name: "concurrent-splat", Quick: 2000, Thorough: 60000, Gen: vh.GenConc(genSplatCase), Run: vh.RunConc(runSplat), Repeat: 20})
 	vh.Drive(t, vh.Spec[vh.Conc[SpzCase]]{Name: "concurrent-spz", Quick: 2000, Thorough: 60000, Gen: vh.GenConc(genSpz), Run: vh.RunConc(runSpz), Repeat: 20})
 	vh.Drive(t, vh.Spec[vh.Conc[PlyCase]]{Name: "concurrent-splat-ply", Quick: 2000, Thorough: 60000, Gen: vh.GenConc(genPlyCase), Run: vh.RunConc(runPly), Repeat: 20})
